@@ -198,6 +198,7 @@ CHECKS["C17"] = dict(
         dict(name="sequences", test="TestSequences", kind="rapid", checks={"quick": 400, "thorough": 12000}, shards=8, timeout={"quick": 600, "thorough": 3000},
              crash_is_violation=True),
         dict(name="fuzz-frame", test="FuzzFrame", kind="fuzz", fuzz_part="frames", tiers=["thorough"], fuzztime="120s", timeout=400, exclusive=True),
+        dict(name="ctldrain", test="TestCtlDrain", kind="rapid", checks={"quick": 25, "thorough": 1500}, shards=16, timeout={"quick": 900, "thorough": 3400}, shrinktime="20s"),
         dict(name="binary", test="TestBinary", kind="rapid", checks={"quick": 10, "thorough": 150}, shards=8, timeout={"quick": 600, "thorough": 3000},
              needs_binary=True, shrinktime="60s"),
         dict(name="handover", test="TestHandover", kind="rapid", checks={"quick": 3, "thorough": 60}, shards=8, timeout={"quick": 900, "thorough": 3000},
